@@ -38,6 +38,22 @@ def one(rng):
     out = gram.enc_grammar(res)
     lines.append(Line("corr", "binarize", [reord or "none", gram.enc_markov(mo), gram.enc_grammar(g)], out))
     lines.append(Line("pred", "P.C08", [enc, out, lenc, ""]))
+    # "every grammar produced": what the writer puts into the count field balances in the same way
+    import cli
+    from impl import grammaroutput
+    for which, gg in (("treebank", g), ("binarized", res)):
+        if which == "binarized" and rng.random() < 0.5:
+            continue
+        with cli.Scratch() as sc:
+            try:
+                with quiet():
+                    grammaroutput.pmcfg(gg, lex, sc.path("g"), "utf-8")
+                gl = gram.file_lines(sc.path("g") + ".pmcfg")
+                lines.append(Line("pred", "P.C08.file", [enc, gram.enc_lines(gl), lenc]))
+            except Exception as e:
+                l = Line("pred", "P.C08.file", [enc, "", lenc], note="writer raised " + proto.err_name(e))
+                l.expect = "writer-must-not-fail"
+                lines.append(l)
     multi = any(c > 1 for f in g for l in g[f] for c in g[f][l].values())
     return Case("treebank", {"trees": [proto.pretty_tree(t) for t in ts], "reordering": reord, "markov": mo}, lines,
                 nontrivial=multi, tags=["markov"] if mo else ["deterministic"])
